@@ -34,6 +34,8 @@ def run(facts, rep):
     d2_lifetime(facts, rep)
     d3_exception(facts, rep)
     d5_ets(facts, rep)
+    d5_key_count(facts, rep)
+    d5_tls_key_creation_checked(facts, rep)
 
 
 def witnesses(rep, tier):
@@ -341,3 +343,79 @@ def d5_ets(facts, rep):
     if ncache < 1:
         raise AnalysisBroken('ets_base<ets_key_per_instance>::table_clear not instantiated')
     rep.floor('D5', 9, 'ETS table')
+
+
+def d5_key_count(facts, rep):
+    """The hash table of enumerable_thread_specific has no "full" test of its own: table_lookup relies on my_count - the number
+    of keys ever given a slot - to double the table before its density exceeds one half, which is what guarantees that the probe
+    loop finds an empty slot and ends.  Every function that gives slots to keys therefore accounts for them in my_count: by an
+    increment of its own, or (copying a whole table) by a store whose value is computed from the SOURCE container's counter or
+    from a count of the copied keys.  A copy that keeps its own (zero) counter ends up with a table that later fills up
+    completely; the next new thread probes it for ever."""
+    from engine.rules import Defs
+    n = 0
+    for fn in sorted(facts.fns.values(), key=lambda f: f.q):
+        if (fn.cls or '') != D1N + 'ets_base' or fn.kind not in ('method',):
+            continue
+        claims = [(pos, o) for pos, o in atomic_ops(fn) if o['kind'] in ('store', 'cas') and last_member(fn, o['obj']) == 'key' and
+                  not (o['kind'] == 'store' and fn.cv(o.get('val', -1)) == 0)]
+        claims += [(pos, {'ln': node.get('ln')}) for pos, s, node, d in calls_named(fn, ('claim',)) if 'slot' in ((d or {}).get('q') or '')]
+        if not claims:
+            continue
+        n += 1
+        params = set(p['v'] for p in fn.d.get('params', []))
+        ups = [(pos, o) for pos, o in atomic_ops(fn) if last_member(fn, o['obj']) == 'my_count' and o['kind'] in ('store', 'rmw', 'cas') and
+               fn.n(fn.strip(fn.n(fn.strip(o['obj'])).get('base', -1))).get('k') == 'this']
+        good = []
+        for pos, o in ups:
+            if o['kind'] == 'rmw' and o['name'] in ('operator++', 'fetch_add', 'operator+='):
+                good.append(o)
+            elif o['kind'] == 'store' and o.get('val', -1) >= 0:
+                vs = [fn.nodes[x] for x in fn.subtree(o['val']) if fn.nodes[x].get('k') == 'var']
+                if any(v.get('v') in params for v in vs) or any(v.get('local') and v.get('v') not in params for v in vs):
+                    good.append(o)
+        rep.ob('D5', 'K10', fn, 'a function that gives table slots to keys accounts for them in my_count', bool(good),
+               'keys are written into slots (line %s) but my_count is %s: the table is not doubled in time, fills up completely, and the probe '
+               'loop of the next new thread never finds an empty slot' %
+               (claims[0][1].get('ln'), 'stored from this container\'s own counter' if ups else 'not touched'), key_extra='key-count')
+    if n < 2:
+        raise AnalysisBroken('ets_base: functions that claim table slots: %d (expected table_lookup and table_elementwise_copy)' % n)
+
+
+def d5_tls_key_creation_checked(facts, rep):
+    """With ets_key_per_instance every container owns a native TLS key that caches the thread's element.  Native keys are a
+    small per-process resource (1024 on Linux); when pthread_key_create fails the key variable is not written, and from then on
+    the container reads and writes the slot of whatever key its uninitialised member happens to name - another container's
+    element is handed out ("each thread exactly one element, created by exactly one initialiser call" - here an element of a
+    different container, possibly of a different type).  Rule: the result of every key-creation call in the container's code is
+    examined (it reaches a branch condition, directly or through a variable), never discarded."""
+    n = 0
+    for fn in sorted(facts.fns.values(), key=lambda f: f.q):
+        if not fn.q.startswith('tbb::detail::d1::ets_base'):
+            continue
+        pm = None
+        for pos, s, node, d in calls_named(fn, ('pthread_key_create',)):
+            pm = pm or fn.parent_map()
+            n += 1
+            cur = s
+            used = False
+            for _ in range(8):
+                par = pm.get(cur)
+                if par is None:
+                    break
+                pn = fn.nodes[par]
+                if pn.get('k') == 'cast' and pn.get('ck') == 'ToVoid':
+                    break
+                if pn.get('k') in ('binop', 'unop', 'decl', 'return', 'call', 'cond'):
+                    used = True
+                    break
+                cur = par
+            if not used:
+                # the call may itself be the condition of a branch
+                used = any(blk.get('term') and blk['term'].get('c') is not None and s in fn.subtree(blk['term']['c']) for blk in fn.blocks.values())
+            rep.ob('D5', 'K13', fn, 'the result of creating the TLS key of the container is examined', used,
+                   'pthread_key_create can fail (the process has a fixed number of keys); the result is discarded and the key member '
+                   'stays uninitialised: the container then uses the TLS slot of some other key and hands out an element of another container',
+                   ln=node.get('ln'), key_extra='key-create')
+    if n < 1:
+        raise AnalysisBroken('ets_base<ets_key_per_instance>: no pthread_key_create call found (the driver no longer instantiates it?)')
